@@ -77,6 +77,30 @@ type HarnessSpec struct {
 	MaxPaths int    `json:"max_paths,omitempty"`
 	Expect   string `json:"expect,omitempty"` // "violation": planted twin (vacuity witness) must be violated
 	Note     string `json:"note,omitempty"`
+	// A harness shared between properties asserts clauses of several of them; a check counts only
+	// the assertion labels of its own property: Only (if non-empty) lists label prefixes that count,
+	// Ignore lists label prefixes that do not. Panics, deadlocks, races and termination candidates
+	// always count unless AssertsOnly... (they are failures of the code whatever the property).
+	Only   []string `json:"only_labels,omitempty"`
+	Ignore []string `json:"ignore_labels,omitempty"`
+}
+
+// counts reports whether an assertion label is one this check is responsible for.
+func (h *HarnessSpec) counts(label string) bool {
+	for _, p := range h.Ignore {
+		if strings.HasPrefix(label, p) {
+			return false
+		}
+	}
+	if len(h.Only) == 0 {
+		return true
+	}
+	for _, p := range h.Only {
+		if strings.HasPrefix(label, p) {
+			return true
+		}
+	}
+	return false
 }
 
 func (h *HarnessSpec) ID() string {
@@ -331,6 +355,9 @@ func (w *Worker) noteInconclusive(msg string) {
 
 func (w *Worker) reportViolation(e *Exec, label, kind, msg string, m map[string]uint64) {
 	r := w.cur
+	if kind == "assert" && !r.Spec.counts(label) {
+		return // a clause of another property, asserted by a shared harness
+	}
 	v := &Violation{Pkg: r.Spec.Pkg, Harness: r.Spec.Func, Params: r.Spec.Params, Label: label, Kind: kind, Msg: msg, Model: m,
 		Inputs: append([]InputRec(nil), e.inputs...), Trace: append([]Decision(nil), e.trace...), Pos: e.curCallPos}
 	r.mu.Lock()
